@@ -548,6 +548,7 @@ C01.defined: wherever constraints_and_type_name renders a component with the `<P
     inner_names(m, ctx, "C01.inner");
     empty_set(m, ctx, "C01.emptyset", &derive);
     unsupported_kinds(m, ctx, "C01.unsupported");
+    fixed_values(m, ctx, "C01.fixed");
     // names that are referred to are the names that are generated (shared with C02.defname)
     crate::rules::c02::defname(m, ctx, "C01.defname");
     // the type of a component and the type of its DEFAULT function / value are chosen by two selectors (shared with C06.agree)
@@ -721,6 +722,90 @@ pub fn unsupported_kinds(m: &Model, ctx: &mut Ctx, rule: &str) {
                 Ok(o) => ctx.fail_closed(rule, &format!("{} on {}: result {}", fname, v, o.show().chars().take(100).collect::<String>())),
                 Err(e) => ctx.fail_closed(rule, &format!("{} on {}: {}", fname, v, e)),
             }
+        }
+    }
+}
+
+/// Writer/writer agreement on the string kinds with two Rust representations. A top-level `O2 ::= OCTET STRING (SIZE (2))`
+/// is declared `struct O2(pub FixedOctetString<2>)`, `B8 ::= BIT STRING (SIZE (8))` `struct B8(pub FixedBitString<8>)`
+/// (the generators are evaluated with fixed_size() = Some / None and the field type is read from the template they
+/// pick). A value of such a type (`vo O2 ::= '0A0B'H`, a DEFAULT) is rendered by value_to_tokens, which is evaluated on
+/// a value of the kind: unless the expression converts (`try_into`, `try_from`) or builds the fixed type itself, it has
+/// the type of the *unconstrained* representation and the wrapper `O2(..)` does not type-check (E0308 / E0277).
+pub fn fixed_values(m: &Model, ctx: &mut Ctx, rule: &str) {
+    let consts = const_resolver(m);
+    let Some(vt) = anchor_fn(m, ctx, rule, Some("Rasn"), "value_to_tokens", None) else { return };
+    for (kind, generator, value, builds_fixed) in [
+        ("OctetString", "generate_octet_string", Val::Ctor("OctetString".into(), vec![Val::List(vec![Val::int(10), Val::int(11)])], BTreeMap::new()), ["FixedOctetString", "try_into", "try_from"]),
+        ("BitString", "generate_bit_string", Val::Ctor("BitString".into(), vec![Val::List(vec![Val::Bool(true), Val::Bool(false)])], BTreeMap::new()), ["FixedBitString", "BitArray", "copy_from_bitslice"]),
+    ] {
+        let Some(g) = anchor_fn(m, ctx, rule, Some("Rasn"), generator, None) else { continue };
+        // the field types the type generator can declare
+        let mut field_types: BTreeMap<bool, String> = BTreeMap::new();
+        for fixed in [true, false] {
+            let hook = move |_: &Evaluator, name: &str, a: &[Val]| -> Option<Result<Val, String>> {
+                match name {
+                    ".fixed_size" => Some(Ok(if fixed { Val::some(Val::int(2)) } else { Val::none() })),
+                    ".format_name_and_common_annotations" => Some(Ok(Val::Tuple(vec![Val::Sym("Name".into()), Val::List(vec![])]))),
+                    ".format_range_annotations" | ".join_annotations" => Some(Ok(Val::Ctor("Ok".into(), vec![Val::Sym(String::new())], BTreeMap::new()))),
+                    ".format_comments" | ".format_tag" | ".to_token_stream" => Some(Ok(Val::Sym(String::new()))),
+                    n if n.ends_with("_template") && !n.starts_with('.') => { let _ = a; Some(Ok(Val::Sym(format!("<template {}>", n)))) }
+                    _ => None,
+                }
+            };
+            let ev = Evaluator { consts: &consts, call_hook: &hook, inline: None };
+            let param = g.sig.inputs.iter().filter_map(|a| match a { syn::FnArg::Typed(t) => Some(tok(&t.pat)), _ => None }).next().unwrap_or("tld".into());
+            let mut t = BTreeMap::new();
+            t.insert("name".to_string(), Val::Str("Name".into()));
+            t.insert("comments".to_string(), Val::Str(String::new()));
+            t.insert("tag".to_string(), Val::none());
+            t.insert("ty".to_string(), Val::Ctor(kind.into(), vec![Val::Ctor(kind.into(), vec![], [("constraints".to_string(), Val::List(vec![]))].into_iter().collect())], BTreeMap::new()));
+            let mut env = Env::new();
+            env.insert("self".into(), Val::ctor("Rasn"));
+            env.insert(param, Val::Ctor("ToplevelTypeDefinition".into(), vec![], t));
+            match ev.eval_fn_body(&g.block, &mut env) {
+                Ok(Val::Ctor(ok, p, _)) if ok == "Ok" => {
+                    let tn = match p.first() { Some(Val::Sym(s)) => s.trim_start_matches("<template ").trim_end_matches('>').to_string(), _ => String::new() };
+                    let Some(tf) = m.fns.iter().find(|f| f.name == tn && f.module.starts_with("generator::rasn")) else {
+                        ctx.fail_closed(rule, &format!("{}: template `{}` not found", generator, tn));
+                        continue;
+                    };
+                    // `pub struct #name(pub <FieldType> ..);`
+                    let body = tok(&tf.block);
+                    let ft = body.split("(pub ").nth(1).map(|r| r.split(|c: char| !(c.is_alphanumeric() || c == '_')).next().unwrap_or("").to_string()).unwrap_or_default();
+                    if ft.is_empty() {
+                        ctx.fail_closed(rule, &format!("{}: no field type in template {}", generator, tn));
+                        continue;
+                    }
+                    field_types.insert(fixed, ft);
+                }
+                Ok(o) => ctx.fail_closed(rule, &format!("{} (fixed_size {}): result {}", generator, fixed, o.show().chars().take(100).collect::<String>())),
+                Err(e) => ctx.fail_closed(rule, &format!("{} (fixed_size {}): {}", generator, fixed, e)),
+            }
+        }
+        let (Some(fixed_ty), Some(plain_ty)) = (field_types.get(&true), field_types.get(&false)) else { continue };
+        ctx.oblige(rule, &format!("{}:value-of-fixed-size-type", kind), true);
+        if fixed_ty == plain_ty {
+            continue; // one representation: nothing to agree on
+        }
+        // the value expression (it is the same whatever the governing type: value_to_tokens is not told)
+        let ev = Evaluator { consts: &consts, call_hook: &crate::eval::no_hook, inline: None };
+        let ps: Vec<String> = vt.sig.inputs.iter().filter_map(|a| match a { syn::FnArg::Typed(t) => Some(tok(&t.pat)), _ => None }).collect();
+        let mut env = Env::new();
+        env.insert("self".into(), Val::ctor("Rasn"));
+        env.insert(ps.first().cloned().unwrap_or("value".into()), value.clone());
+        env.insert(ps.get(1).cloned().unwrap_or("type_name".into()), Val::none());
+        match ev.eval_fn_body(&vt.block, &mut env) {
+            Ok(Val::Ctor(ok, p, _)) if ok == "Ok" => {
+                let text = match p.first() { Some(Val::Sym(s)) => s.clone(), Some(o) => o.show(), None => String::new() };
+                if !builds_fixed.iter().any(|b| text.contains(b)) {
+                    ctx.violate(rule, &format!("{}:value-of-fixed-size-type", kind), &vt.file, vt.line,
+                        &format!("a top-level {k} type with a fixed SIZE is declared with the field type `{f}<N>`, any other with `{p}`; value_to_tokens renders every {k} value as `{t}` — an expression of the unconstrained representation — so `vo O2 ::= '0A0B'H` / a DEFAULT of the fixed-size type `O2` becomes `O2({t})`: mismatched types, no warning", k = kind, f = fixed_ty, p = plain_ty, t = text.chars().take(70).collect::<String>()));
+                }
+            }
+            Ok(Val::Ctor(e, _, _)) if e == "Err" => {}
+            Ok(o) => ctx.fail_closed(rule, &format!("value_to_tokens on {}: result {}", kind, o.show().chars().take(100).collect::<String>())),
+            Err(e) => ctx.fail_closed(rule, &format!("value_to_tokens on {}: {}", kind, e)),
         }
     }
 }
